@@ -8,9 +8,9 @@ from types import SimpleNamespace
 ID = "C05"
 TITLE = "pruning = greatest/least fixed point; every finder returns a valid proof tree; smallest is minimal"
 COQ_PROPS = "Props/C05.v"
-COQ_RUN = ("Tree.Run", "run_c05")
+COQ_RUN = ("Tree.RunWithEquiv", "run_c05")   # modes 0..7 = Tree/Run.v unchanged, mode 8 = composed RuleDBBase model
 GEN_TARGETS = ["prune_rule_test", "iterative_prune_rule_test", "iterative_finder_rule_test"]   # Tree/GenBridge.v
-N = {"quick": 20000, "thorough": 400000}
+N = {"quick": 22000, "thorough": 440000}
 RULE = (
     "random integer rule dictionaries (3-10 labels with gaps, 1-4 rules per label, arity 0-3, repeated "
     "children, with/without () rules, children outside the dictionary so that pruning bites), run through: "
@@ -20,8 +20,15 @@ RULE = (
     "iterative_proof_tree_finder; and a real RuleDB (fake searcher, integer labels) fed random rule "
     "insertion histories with one-way/two-way equivalence rules, recursive and iterative, start label equal to "
     "or different from its representative, observed through rules_up_to_equivalence, pruned_dict, "
-    "has_specification (also queried between insertions: cache invalidation), is_verified and _get_specification_node "
-    "(smallish, smallest, iterative). A malformed "
+    "has_specification (also queried between insertions: every intermediate answer is recorded and judged by the oracle "
+    "on the prefix of the history), is_verified (compared exactly, the marks of earlier queries included) and "
+    "_get_specification_node (smallish, smallest, iterative); and COMPOSED histories (mode 8, ~9% of the cases): a real "
+    "RuleDB over labels 0..7 driven by 4-30 public operations - add (ordinary / one-way / two-way / VerificationRule), "
+    "has_specification(), is_verified(l), rules_up_to_equivalence(), _get_specification_node(smallest or not), recursive "
+    "and iterative - where AFTER EVERY OPERATION the answer, the representative of every label (read on a copy of the "
+    "equivalence database), the verified labels and the cached _pruned_dict are compared with the composed model "
+    "Tree/WithEquiv.v (whose equivalence database is the C06 model, no representative is an input), and an oracle "
+    "independent of model, cache and union-find recomputes partition / fixed point / marks from the requested adds. A malformed "
     "stream has empty rule sets, unknown roots and unpruned dictionaries. Non-trivial: the dictionary "
     "has >= 4 labels and pruning removes something but not everything / the tree has >= 4 nodes."
 )
@@ -30,8 +37,15 @@ TRUSTED = [
     "hand-written Gallina model Tree/Model.v tied by this correspondence",
     "Python set/dict iteration order is not modelled: dictionaries are compared in canonical (sorted) form; the theorems "
     "hold for every iteration order. random.choice/shuffle and time.time are replaced by a recorded scripted source",
-    "the equivalence representative function (EquivalenceDB.__getitem__ after connect_cycles) is an input of the model "
-    "(read from the real database); that it names the strongly connected components is property C06",
+    "modes 0..7 (Tree/Model.v alone): the equivalence representative function (EquivalenceDB.__getitem__ after "
+    "connect_cycles) is an INPUT of the model, read from the real database. Mode 8 (Tree/WithEquiv.v) has no such input: "
+    "representatives are `find` on the state of the C06 union-find model, and C05_rep_is_scc / C05_has_spec_scc prove "
+    "that at every moment RuleDBBase reads them they name exactly the strongly connected components of the unary rules "
+    "recorded by add (C06_classes_are_sccs_after_neutral covers the set_verified calls pruned_dict makes before the reads)",
+    "composed histories use labels 0..7 (CPython iterates such sets in ascending order = the runnable set order of the "
+    "model); `ends` handed to the model's add are the labels _clean_labels keeps (possibly_empty is False in the harness; "
+    "emptiness needs the class database: C04/C14); the rule objects are fakes (a subclass instance of the real "
+    "VerificationRule for verification rules)",
 ]
 ASSUMPTIONS = [
     "C05_prune_gfp assumes every rule set of the input dictionary is non-empty; C05_quotient_nonempty proves that "
@@ -40,25 +54,69 @@ ASSUMPTIONS = [
     "permutation, one answer per popped node); other oracles make the model return None and are excluded by hypothesis",
     "minimality of 'smallest' (C05_smallest_minimum) and the fuel theorem assume a closed dictionary (every child is a key), "
     "which prune guarantees (used in C05_smallest_minimum_ruledb) and the Python generator itself assumes",
+    "section 8 (composed model): hypotheses order_In / order_len on the set-iteration order (every element, once: as C06); "
+    "every theorem is about states `cexec ... rinit h = Some (x, _)` reached from a fresh RuleDB by a history h of the "
+    "modelled public operations - C05_composed_total proves every history is such a state; C05_verified_marks_sound "
+    "additionally assumes the cache is empty (a recomputation); the node theorems keep the oracle hypotheses of the "
+    "random finders (NNoRun = the recorded choices are not a run of random / the listed dictionary is not the cached one)",
 ]
-TECHNIQUE = "Coq proof (fixed-point characterisations, invariants over the loops, validity of every yielded tree, minimality) + extracted-model/implementation correspondence with recorded random choices"
+TECHNIQUE = "Coq proof (fixed-point characterisations, invariants over the loops, validity of every yielded tree, minimality; composed RuleDB model over the C06 union-find: trace invariant, class-level simulation for the cache) + extracted-model/implementation correspondence with recorded random choices, after every operation for composed histories"
 LEVEL_TEXT = (
     "Theorems C05_* (coq/theories/Props/C05.v), all closed under the global context: prune terminates and computes exactly the "
     "greatest fixed point (keys and rules) for every iteration order; iterative_prune terminates and computes exactly the "
-    "bottom-up least fixed point with the root pre-verified; rules_up_to_equivalence is exactly the recorded rules mapped to "
+    "bottom-up least fixed point with the root pre-verified; for a GIVEN representative function rep, "
+    "rules_up_to_equivalence is exactly the recorded rules mapped to "
     "representatives and has_specification is membership of the start label's representative in that fixed point (recursive: "
-    "gfp, iterative: lfp with recursion to the representative); every tree returned by random_proof_tree (every oracle), "
-    "smallish_random_proof_tree, the bounded and unbounded depth-first generator and the iterative finder uses only "
+    "gfp, iterative: lfp with recursion to the representative); every tree returned by random_proof_tree / "
+    "smallish_random_proof_tree (for every oracle on which the model returns a tree, i.e. every oracle that is a possible run "
+    "of random; that real runs fall in that set is not a theorem), the bounded and unbounded depth-first generator and the "
+    "iterative finder uses only "
     "dictionary rules, gives one rule per label and leaves no label without a rule; the iterative finder returns a tree "
     "exactly when the root is derivable; size = 1 + sum of arities; bounded generator = unbounded generator filtered by "
-    "size <= maximum (same order); the generator's fuel is never exhausted; _get_smallest_node returns a valid proof tree of "
-    "minimum size among ALL valid proof trees. proof_tree_generator_bfs is refuted (C05_bfs_generator_refuted, open finding)."
+    "size <= maximum (same order); on a closed dictionary the generator's fuel is never exhausted; on a closed dictionary, "
+    "when it returns at all, _get_smallest_node returns a valid proof tree of "
+    "minimum size among all valid proof trees OF THAT (quotient) DICTIONARY. proof_tree_generator_bfs is refuted "
+    "(C05_bfs_generator_refuted, open finding). "
+    "SECTION 8 - RuleDBBase as it composes rule keys, EquivalenceDB (C06 model) and the _pruned_dict cache "
+    "(Tree/WithEquiv.v, proofs Tree/WithEquiv{Proofs,Inv,Hist,Cache}.v, Tree/Kernel.v, Equiv/Neutral.v): the representative is "
+    "NOT a parameter, it is `find` of the current union-find state, and the several reads (rules_up_to_equivalence, the root "
+    "in pruned_dict, in has_specification after connect_cycles - fix 50b8703 -, in every finder) are separate lookups. For every "
+    "history h of add / has_specification / is_verified / rules_up_to_equivalence / _get_specification_node / cache drops on a "
+    "fresh database: C05_composed_total, C05_has_specification_total (every operation answers: C06 totality + termination of "
+    "the pruning loops); C05_rep_is_scc (when rules_up_to_equivalence reads them, two labels have the same representative iff "
+    "they are mutually reachable along the unary rules recorded by add, one-way and two-way, whatever set_verified calls, "
+    "lookups and earlier cycle detections came before; its result is the pure rules_up_to_equivalence at that function); "
+    "C05_has_spec_scc, C05_has_spec_recursive_scc, C05_has_spec_iterative_scc (the answer of has_specification - recomputing "
+    "or from the cache - is the gfp / bottom-up statement of theorems 3-4 with 'equivalent' meaning exactly 'same strongly "
+    "connected component of the recorded unary-rule graph'); C05_finder_total_after_has_specification, "
+    "C05_node_not_found_iff_no_specification (_get_specification_node raises SpecificationNotFound iff has_specification() is "
+    "False; otherwise the iterative finder returns a valid tree rooted at the root's representative - no ValueError/KeyError -, "
+    "smallish/smallest return a valid (smallest: minimum-size) tree for every oracle that is a run of random, "
+    "InvalidOperationError only for iterative+smallest); C05_verified_marks_sound + C05_pruned_keys_are_fixed_point (after a "
+    "recomputation a label is verified iff its class contains a label verified before or its class is in the fixed point); "
+    "C05_is_verified_answer; C05_recompute_idem (recomputing with a valid cache, i.e. twice without an add: same dictionary, "
+    "same roots, same verified roots, same edges - the premise recompute_idem of Searcher/Cache.v as a theorem, from "
+    "C06_connect_cycles_idempotent's lemma); C05_pruned_dict_cache_transparent, C05_never_caching_same_answers (histories that "
+    "differ only in where the cache was dropped give the same Boolean answers, the same found/not-found/invalid outcome of "
+    "node requests, the same partition and the same verified labels; the union-find roots may differ, the proof is a "
+    "simulation at class level using that pruning does not depend on which label names a class)."
 )
 LEVEL_NOTE = (
     "Trusted: Coq kernel, ExtrOcamlBasic extraction + OCaml driver, the correspondence harness. Modelled not verified: "
     "tree_searcher.py / rule_db/base.py themselves. Set iteration order, random and time are oracle arguments; the "
-    "representative function is an input (C06). Not modelled: proof_tree_dfs, all_proof_trees_dfs, iterative_proof_tree_bfs "
-    "(never called), Node.rule_keys (checked by the oracle on every real tree). "
+    "representative function is an input in modes 0..7 and the union-find's own `find` in the composed model (mode 8). "
+    "Not modelled: proof_tree_dfs, all_proof_trees_dfs, iterative_proof_tree_bfs "
+    "(never called), Node.rule_keys beyond its generator expression (sorting, replacement of () entries and the assert are "
+    "checked by the oracle on every real tree), _clean_labels' emptiness test, get_specification_rules / the rule extractor "
+    "(C02), status(), rule_from_equivalence_rule*. In the composed model the binary search of _get_smallest_node reads "
+    "pruned_dict / equivdb[root] once instead of once per iteration (reads are cache hits and lookups: C05_recompute_idem, "
+    "C06_representative_function); `if ends == [start]: return` in add compares a tuple with a list and is dead code "
+    "(modelled as such). What is NOT proved for the composed model: that a run of random with valid choices always yields a "
+    "tree (progress of random_proof_tree on a closed dictionary; the model returns NNoRun for a non-run and the correspondence "
+    "never saw one); histories start from a fresh database (a pickled / copied RuleDB is C17); the simulation of the cache "
+    "theorem compares node requests only up to found / not found / invalid (trees are named by representatives). "
+    "In iterative mode marks of earlier queries can be stale (a label derivable GIVEN the root stays verified when its class "
+    "later merges with the root's): C05_verified_marks_sound states exactly that, and the oracles reproduce it (no weakening). "
     "Open finding: proof_tree_generator_bfs (unused by RuleDB) can give one label two rules."
 )
 
@@ -293,7 +351,7 @@ class FakeRule:
         return self._tw
 
 
-def make_db(case):
+def make_db(case, probe_log=None):
     from comb_spec_searcher.rule_db import RuleDB
 
     db = RuleDB()
@@ -309,8 +367,11 @@ def make_db(case):
     for i, (s, e, tw) in enumerate(case["rules"]):
         db.add(s, tuple(e), FakeRule(len(e), bool(tw)))
         if i in probes:
-            # exercises the pruned-dictionary cache: it must be invalidated by the next add
-            db.has_specification()
+            # exercises the pruned-dictionary cache: it must be invalidated by the next add;
+            # the answer is recorded and judged by the oracle on the prefix of the history
+            hs = db.has_specification()
+            if probe_log is not None:
+                probe_log.append([i, int(bool(hs))])
     return db
 
 
@@ -320,6 +381,280 @@ def db_labels(case):
         ls.add(s)
         ls.update(e)
     return sorted(ls)
+
+
+# ------------------------------------------------------- composed RuleDBBase histories (mode 8)
+_FAKE_VER = []
+
+
+def fake_ver_rule():
+    """an instance of a subclass of the real VerificationRule (RuleDBBase.add tests isinstance)"""
+    if not _FAKE_VER:
+        from comb_spec_searcher.strategies.rule import VerificationRule
+
+        class FakeVer(VerificationRule):  # pylint: disable=abstract-method
+            children = ()
+            possibly_empty = False
+            strategy = "V"
+
+            def __init__(self):  # pylint: disable=super-init-not-called
+                pass
+
+            def is_two_way(self):
+                return False
+
+        FakeVer.__abstractmethods__ = frozenset()
+        _FAKE_VER.append(FakeVer)
+    return _FAKE_VER[0]()
+
+
+def composed_db(case):
+    from comb_spec_searcher.rule_db import RuleDB
+
+    db = RuleDB()
+    db.link_searcher(SimpleNamespace(start_label=case["root"], classdb=None, classqueue=None,
+                                     strategy_pack=SimpleNamespace(iterative=bool(case["iterative"]))))
+    return db
+
+
+def observe_db(db, labels):
+    """representatives / verified labels read on a COPY of the equivalence database (lookups compress
+    paths and create entries), and the cache attribute"""
+    e = copy.deepcopy(db.equivdb)
+    reps = [[l, e[l]] for l in labels]
+    ver = [l for l in labels if e.is_verified(l)]
+    pd = db._pruned_dict  # pylint: disable=protected-access
+    return [reps, ver, [0] if pd is None else [1, canon_dict(pd)]]
+
+
+def run_composed_real(case):
+    from comb_spec_searcher.exception import InvalidOperationError, SpecificationNotFound
+
+    db = composed_db(case)
+    labels = case["labels"]
+    out, aux = [], []
+    for op in case["ops"]:
+        info = {}
+        if op[0] == "add":
+            _, s, e, ver, tw = op
+            db.add(s, tuple(e), fake_ver_rule() if ver else FakeRule(len(e), bool(tw)))
+            ans = []
+        elif op[0] == "hs":
+            ans = [int(bool(db.has_specification()))]
+        elif op[0] == "ver":
+            ans = [int(bool(db.is_verified(op[1])))]
+        elif op[0] == "rue":
+            ans = [2, canon_dict(db.rules_up_to_equivalence())]
+        elif op[0] == "node":
+            _, smallest, seed, iters = op
+            rk = None
+            with Script(seed, iters) as sc:
+                try:
+                    t = db._get_specification_node(1.0, bool(smallest))  # pylint: disable=protected-access
+                    node = [1, tree_sx(t)]
+                    rk = check_rule_keys(t, db._pruned_dict, "node", formula=not case["iterative"])
+                except SpecificationNotFound:
+                    node = [2]
+                except InvalidOperationError:
+                    node = [3]
+                except ValueError:
+                    node = [0, 4]
+                except (KeyError, IndexError):
+                    node = [0, 1]
+            pd = db._pruned_dict  # pylint: disable=protected-access
+            info = {"runs": sc.runs, "listed": listing(copy.deepcopy(pd)) if pd is not None else [], "rk": rk}
+            ans = [3, node]
+        elif op[0] == "drop":
+            db._pruned_dict = None  # pylint: disable=protected-access
+            ans = []
+        else:
+            raise ValueError("unknown op %r" % (op,))
+        out.append([ans] + observe_db(db, labels))
+        aux.append(info)
+    return {"out": out, "aux": aux}
+
+
+def encode_composed(case):
+    r = run_real(case)
+    aux = r.get("aux", [])
+    ops = []
+    for i, op in enumerate(case["ops"]):
+        if op[0] == "add":
+            ops.append([0, op[1], op[2], int(op[3]), int(op[4])])
+        elif op[0] == "hs":
+            ops.append([1])
+        elif op[0] == "ver":
+            ops.append([2, op[1]])
+        elif op[0] == "rue":
+            ops.append([3])
+        elif op[0] == "node":
+            a = aux[i] if i < len(aux) else {}
+            ops.append([4, int(op[1]), a.get("runs", []), a.get("listed", [])])
+        else:
+            ops.append([5])
+    return [8, case["root"], int(case["iterative"]), ops, case["labels"]]
+
+
+def oracle_composed(case, res):
+    """Reference semantics of a RuleDB history, independent of the model, of the cache and of the
+    union-find: after every operation
+      * classes (read off the implementation's representatives) are sound (same class => mutually reachable
+        along the unary rules requested so far), contain the two-way closure, only grow, and are EXACTLY the
+        strongly connected components right after has_specification / rules_up_to_equivalence / a node request;
+      * has_specification() (every call, also the one made by a node request) is the reference fixed point of
+        the requested rules taken up to the strongly connected components;
+      * is_verified: a label is verified iff its class contains a label marked so far, where marks are the
+        starts of verification rules and, at every has_specification / node request, all labels of the classes
+        of the reference fixed point (marks are never withdrawn: in iterative mode they can be stale);
+      * a cached pruned dictionary, whenever one is present, is the reference fixed point of the rules
+        requested so far (as a set of (class, children classes));
+      * rules_up_to_equivalence() is the reference quotient; returned trees are proof trees of the reference
+        fixed point (smallest: of minimum size)."""
+    out = res["out"]
+    labels = case["labels"]
+    iterative = bool(case["iterative"])
+    edges, twoway, adds = [], [], []
+    marked = set()
+    prev_cls = {l: l for l in labels}
+    if len(out) != len(case["ops"]):
+        return "composed: %d observations for %d operations" % (len(out), len(case["ops"]))
+    for i, (op, ob) in enumerate(zip(case["ops"], out)):
+        where = "composed op %d %r: " % (i, op)
+        ans, reps, ver, cache = ob
+        rep = dict(reps)
+        cls = {a: min(b for b in labels if rep[b] == rep[a]) for a in labels}
+        if op[0] == "add":
+            _, s, e, isver, tw = op
+            adds.append((s, sorted(e)))
+            if isver:
+                marked.add(s)
+            if len(e) == 1:
+                edges.append((s, e[0]))
+                if tw:
+                    edges.append((e[0], s))
+                    twoway.append((s, e[0]))
+        scc = sccs(labels, edges)
+        # --- the partition
+        for a in labels:
+            for b in labels:
+                if cls[a] == cls[b] and scc[a] != scc[b]:
+                    return where + "labels %d and %d are in one class but not mutually reachable along recorded unary rules [C06]" % (a, b)
+                if prev_cls[a] == prev_cls[b] and cls[a] != cls[b]:
+                    return where + "labels %d and %d were equivalent and are not any more" % (a, b)
+        for a, b in twoway:
+            if cls[a] != cls[b]:
+                return where + "two-way rule %d <-> %d but different classes" % (a, b)
+        if op[0] in ("hs", "rue", "node"):
+            for a in labels:
+                if cls[a] != scc[a]:
+                    return where + "classes differ from the strongly connected components at label %d right after the representatives were read [C06]" % a
+        prev_cls = cls
+        # --- reference fixed point of the requested rules, up to the strongly connected components
+        q = defaultdict(set)
+        for s, e in adds:
+            if len(e) == 1 and scc[s] == scc[e[0]]:
+                continue
+            q[scc[s]].add(tuple(sorted(scc[x] for x in e)))
+        root = scc[case["root"]]
+        if iterative:
+            v = ref_lfp(q, [root])
+            keep = {k: {r for r in q[k] if all(x in v for x in r)} for k in q}
+            keep = {k: rs for k, rs in keep.items() if rs}
+        else:
+            g = ref_gfp(q)
+            keep = {k: {r for r in q[k] if all(x in g for x in r)} for k in g}
+        exp_hs = root in keep
+        to_scc = {rep[a]: scc[a] for a in labels}
+        # --- answers
+        if op[0] == "hs":
+            if bool(ans[0]) != exp_hs:
+                return where + "has_specification()=%r but the reference fixed point says %r" % (bool(ans[0]), exp_hs)
+        if op[0] == "rue":
+            try:
+                got = {to_scc[k]: {tuple(sorted(to_scc[x] for x in r)) for r in rs} for k, rs in ans[1]}
+            except KeyError:
+                return where + "rules_up_to_equivalence() %r mentions a label that is not a current representative" % (ans[1],)
+            if got != dict(q):
+                return where + "rules_up_to_equivalence() %r differs from the reference quotient %r" % (got, dict(q))
+        if op[0] == "node":
+            node = ans[1]
+            if not exp_hs:
+                if node != [2]:
+                    return where + "node %r returned although the reference says there is no specification" % (node,)
+            elif iterative and op[1]:
+                if node != [3]:
+                    return where + "iterative and smallest: %r instead of InvalidOperationError" % (node,)
+            elif node[0] != 1:
+                return where + "has a specification but the finder gave %r" % (node,)
+        if op[0] in ("hs", "node"):
+            marked |= {l for l in labels if scc[l] in keep}
+        if op[0] == "ver":
+            exp = any(cls[b] == cls[op[1]] for b in marked)
+            if bool(ans[0]) != exp:
+                return where + "is_verified(%d)=%r, reference %r (marked %r)" % (op[1], bool(ans[0]), exp, sorted(marked))
+        expver = [l for l in labels if any(cls[b] == cls[l] for b in marked)]
+        if sorted(ver) != expver:
+            return where + "verified labels %r, reference %r (marked so far %r)" % (sorted(ver), expver, sorted(marked))
+        if cache[0] == 1:
+            try:
+                got = {to_scc[k]: {tuple(sorted(to_scc[x] for x in r)) for r in rs} for k, rs in cache[1]}
+            except KeyError:
+                return where + "cached pruned dictionary mentions a label that is not a representative"
+            if got != keep:
+                return where + "cached pruned dictionary %r differs from the reference fixed point %r of the rules added so far" % (got, keep)
+        if op[0] == "node" and ans[1][0] == 1 and exp_hs:
+            def relabel(t):
+                return [to_scc[t[0]], [relabel(c) for c in t[1]]]
+
+            try:
+                t = relabel(ans[1][1])
+            except KeyError:
+                return where + "tree label that is not a representative"
+            why = check_tree(t, keep, root, recursion_to=root if iterative else None, what="node") or res["aux"][i].get("rk")
+            if why:
+                return where + why
+            if op[1] and not iterative:
+                best = min_tree_size(keep, root) if len(keep) <= 7 else None
+                if best is not None and tsize(t) != best:
+                    return where + "smallest: returned tree has %d nodes, exhaustive minimum is %d" % (tsize(t), best)
+    return None
+
+
+def gen_composed(rng):
+    n = rng.randint(3, 8)
+    labels = sorted(rng.sample(range(8), n))   # 0..7: CPython iterates such sets in ascending order (as C06's exact cases)
+    iterative = rng.random() < 0.4
+    ops = []
+    nops = rng.randint(4, 3 * n + 6)
+    p_query = rng.choice([0.2, 0.35, 0.5])
+    # shape: mixed, or dominated by one-way unary rules (long one-way cycles closed late, cycles through merged classes)
+    p_unary, p_tw = rng.choice([(0.4, 0.45), (0.4, 0.45), (0.7, 0.15)])
+    for _ in range(nops):
+        if rng.random() >= p_query:
+            s = rng.choice(labels)
+            x = rng.random()
+            ver = 0
+            if x < 0.2 * (1 - p_unary) / 0.6:
+                e = []
+                ver = int(rng.random() < 0.4)
+            elif x < 0.2 * (1 - p_unary) / 0.6 + p_unary:
+                e = [rng.choice(labels)]
+            else:
+                e = [rng.choice(labels) for _ in range(rng.randint(2, 3))]
+            tw = 1 if (len(e) == 1 and rng.random() < p_tw) else 0
+            ops.append(["add", s, e, ver, tw])
+        else:
+            y = rng.random()
+            if y < 0.4:
+                ops.append(["hs"])
+            elif y < 0.6:
+                ops.append(["ver", rng.choice(labels)])
+            elif y < 0.7:
+                ops.append(["rue"])
+            else:
+                smallest = int(rng.random() < (0.1 if iterative else 0.5))
+                ops.append(["node", smallest, rng.randrange(1 << 30), rng.randint(0, 3)])
+    return {"mode": "composed", "root": rng.choice(labels), "iterative": int(iterative), "labels": labels, "ops": ops}
 
 
 KIND = {"none": 0, "smallish": 1, "smallest": 2, "iterative": 3}
@@ -357,6 +692,8 @@ def _run_real(case):
     from comb_spec_searcher.exception import SpecificationNotFound
 
     m = case["mode"]
+    if m == "composed":
+        return run_composed_real(case)
     if m == "prune":
         d = build(case["d"])
         ts.prune(d)
@@ -406,7 +743,8 @@ def _run_real(case):
             return {"out": [0, 1], "listing": lst}
         return {"out": [1, tree_sx(t)], "rk": check_rule_keys(t, d, "ifinder", formula=False), "listing": lst}
     if m == "ruledb":
-        db = make_db(case)
+        probe_log = []
+        db = make_db(case, probe_log)
         rules = [[s, list(e)] for s, e in db]
         q = db.rules_up_to_equivalence()
         labels = db_labels(case)
@@ -435,6 +773,7 @@ def _run_real(case):
                     node = [0, 1]
         res["runs"] = sc.runs
         res["rk"] = rk
+        res["probe_hs"] = probe_log
         res["out"] = [canon_dict(q), [1, canon_dict(pd)], int(hs), node]
         return res
     raise ValueError("unknown mode %r" % m)
@@ -447,6 +786,8 @@ def impl(case):
 def encode(case):
     m = case["mode"]
     opt = lambda x: [] if x is None else x
+    if m == "composed":
+        return encode_composed(case)
     if m == "prune":
         return [0, case["d"]]
     if m == "iprune":
@@ -493,6 +834,8 @@ def oracle(case, res):
         return "implementation raised " + res["exception"]
     m = case["mode"]
     out = res["out"]
+    if m == "composed":
+        return oracle_composed(case, res)
     d = build(case["d"]) if "d" in case else None
     if m == "prune":
         if any(not d[k] for k in d):
@@ -605,16 +948,38 @@ def oracle(case, res):
     got_pd = {to_cls[k]: {tuple(sorted(to_cls[x] for x in r)) for r in rs} for k, rs in out[1][1]}
     if got_pd != keep:
         return "ruledb: pruned_dict %r differs from the reference fixed point %r" % (got_pd, keep)
-    ver = {l for l in labels if cls[l] in keep}
-    if case["iterative"] and case.get("probes"):
-        # iterative mode marks a label verified when it is derivable GIVEN the root; such a mark is never
-        # withdrawn, so after an earlier has_specification() a label that later merges with the root's class
-        # leaves that class marked verified although nothing is derivable (observation, see report): with
-        # intermediate queries only "every derivable label is verified" is required
-        if not ver <= set(res["verified"]):
-            return "ruledb: labels %r are in the fixed point but not is_verified" % (sorted(ver - set(res["verified"])),)
-    elif set(res["verified"]) != ver:
-        return "ruledb: is_verified true for %r, reference %r" % (res["verified"], sorted(ver))
+    # every intermediate has_specification() is judged on the prefix of the history, and its marks are kept:
+    # pruned_dict marks the labels of the fixed point verified and a mark is never withdrawn (in iterative mode a
+    # label derivable GIVEN the root stays verified when its class later merges with the root's: such stale
+    # marks are part of the reference, see C05_verified_marks_sound), so is_verified is compared exactly
+    marked = set()
+    answers = dict(res.get("probe_hs", []))
+    for i in sorted(set(case.get("probes", ()))):
+        if i >= len(case["rules"]):
+            continue
+        pre = case["rules"][: i + 1]
+        pedges = [(s, e[0]) for s, e, tw in pre if len(e) == 1] + [(e[0], s) for s, e, tw in pre if len(e) == 1 and tw]
+        pcls = sccs(labels, pedges)
+        pq = defaultdict(set)
+        for s, e, tw in pre:
+            if len(e) == 1 and pcls[s] == pcls[e[0]]:
+                continue
+            pq[pcls[s]].add(tuple(sorted(pcls[x] for x in e)))
+        proot = pcls[case["root"]]
+        if case["iterative"]:
+            pv = ref_lfp(pq, [proot])
+            pkeep = {k for k in pq if any(all(x in pv for x in r) for r in pq[k])}
+        else:
+            pkeep = ref_gfp(pq)
+        if i in answers and bool(answers[i]) != (proot in pkeep):
+            return "ruledb: has_specification() after insertion %d answered %r, reference fixed point of that prefix says %r" % (
+                i, bool(answers[i]), proot in pkeep)
+        marked |= {l for l in labels if pcls[l] in pkeep}
+    marked |= {l for l in labels if cls[l] in keep}
+    ver = {l for l in labels if any(cls[b] == cls[l] for b in marked)}
+    if set(res["verified"]) != ver:
+        return "ruledb: is_verified true for %r, reference %r (labels marked by the queries so far %r)" % (
+            res["verified"], sorted(ver), sorted(marked))
     node = out[3]
     if case["kind"] == "none":
         return None
@@ -738,6 +1103,9 @@ def gen_ruledb(rng):
 
 def gen(rng, tier):
     while True:
+        if rng.random() < 0.09:
+            yield gen_composed(rng)
+            continue
         x = rng.random()
         malformed = rng.random() < 0.08
         if x < 0.18:
@@ -788,6 +1156,9 @@ def gen(rng, tier):
 def nontrivial(case, res):
     out = res.get("out")
     m = case["mode"]
+    if m == "composed":
+        return (isinstance(out, list) and len(out) >= 4 and any(a != b for ob in out for a, b in ob[1])
+                and any(ob[3][0] == 1 and ob[3][1] for ob in out))
     if m in ("prune", "iprune"):
         return len(case["d"]) >= 4 and out[0] == 1 and 0 < len(out[1]) < len(case["d"])
     if m in ("random", "smallish", "ifinder"):
@@ -807,6 +1178,19 @@ def classify(case, res):
     tags = [case["mode"]]
     out = res.get("out")
     m = case["mode"]
+    if m == "composed":
+        tags.append("composed:" + ("iterative" if case["iterative"] else "recursive"))
+        if isinstance(out, list):
+            for op, ob in zip(case["ops"], out):
+                if op[0] == "hs":
+                    tags.append("composed:hs_true" if ob[0][0] else "composed:hs_false")
+                if op[0] == "node":
+                    tags.append("composed:node_%s" % {1: "tree", 2: "notfound", 3: "invalid", 0: "error"}[ob[0][1][0]])
+            if any(ob[3][0] == 1 for ob, op in zip(out, case["ops"]) if op[0] in ("hs", "node", "ver", "rue")):
+                tags.append("composed:query_with_cache")
+            if any(ob[2] for ob in out):
+                tags.append("composed:some_verified")
+        return sorted(set(tags))
     if m == "ruledb":
         tags.append("ruledb:" + ("iterative" if case["iterative"] else "recursive") + ":" + case["kind"])
         if isinstance(out, list):
@@ -826,6 +1210,17 @@ def classify(case, res):
 
 def shrink(case):
     m = case["mode"]
+    if m == "composed":
+        ops = case["ops"]
+        for i in range(len(ops) - 1, -1, -1):
+            yield dict(case, ops=ops[:i] + ops[i + 1:])
+        for i, op in enumerate(ops):
+            if op[0] == "add" and len(op[2]) > 2:
+                for j in range(len(op[2])):
+                    yield dict(case, ops=ops[:i] + [["add", op[1], op[2][:j] + op[2][j + 1:], op[3], op[4]]] + ops[i + 1:])
+            if op[0] == "node" and op[3]:
+                yield dict(case, ops=ops[:i] + [["node", op[1], op[2], 0]] + ops[i + 1:])
+        return
     if m == "ruledb":
         rules = case["rules"]
         pr = case.get("probes", [])
